@@ -1,0 +1,30 @@
+//go:build verif
+
+package signature
+
+// Contracts of the signature repository (checked by /verif/gocv; comment-only file).
+//
+// The signatures of a round live under one key of the node's state store and are rewritten as a whole. A node that
+// was stopped or killed and started again has nothing in memory: whatever is written must therefore extend what the
+// store holds now, read in this very call (C13: a restart loses nothing that was stored before it).
+//   $sigsReads  number of reads of stored signatures so far, $sigsRead the round of the last one
+//@ ghost var $sigsReads int
+//@ ghost var $sigsRead string
+
+//@ func (*BaseSignatureRepo).GetSignatures
+//@   nosafety
+//@   safety C13
+//@   requires r != nil
+//@   modifies *
+//@   epilogue $sigsReads = old($sigsReads) + 1
+//@   epilogue $sigsRead = dkgID
+
+//@ func (*BaseSignatureRepo).SaveSignatures
+//@   nosafety
+//@   safety C13
+//@   requires r != nil
+//@   modifies *
+//@   modifies $sigsReads, $sigsRead, $bufc, $kv, $kvHas, $kvWrites, $lastSetKey
+//@   assert@call GetSignatures[C13.sigs.reload] dkgID == signaturesToSave[0].DKGRoundID
+//@   assert@call Set[C13.sigs.reload] $sigsReads > old($sigsReads)
+//@   assert@call Marshal[C13.sigs.extend] loc0(storedSignatures) != nil ==> loc(storedSignatures) == loc0(storedSignatures)
